@@ -58,6 +58,17 @@ let spec input obs_s =
     Stdlib.List.iter (fun i -> Hashtbl.replace allowed i ()) sc.init;
     Stdlib.List.iter (fun (_, n) -> Stdlib.List.iter (fun i -> Hashtbl.replace allowed i ()) n.chain) ns;
     Stdlib.List.iter (fun (i, _, _, _, _) -> if not (Hashtbl.mem allowed i) then fail "stored-header-nobody-offered" (string_of_int i)) o.rows;
+    (* the final table: one LONGEST_CHAIN header per height, each the child of the LONGEST_CHAIN header one below *)
+    (let ls = Stdlib.List.filter (fun (_, _, _, _, stt) -> stt = "L") o.rows in
+     let by_h = Hashtbl.create 64 in
+     Stdlib.List.iter (fun (i, _, h, _, _) ->
+         (match Hashtbl.find_opt by_h h with
+          | Some j -> fail "two-longest-chain-headers-at-one-height" (Printf.sprintf "height %d: %d and %d" h j i)
+          | None -> ());
+         Hashtbl.replace by_h h i) ls;
+     Stdlib.List.iter (fun (i, p, h, _, _) ->
+         if h > 0 && Hashtbl.find_opt by_h (h - 1) <> Some p then
+           fail "longest-chain-not-linked" (Printf.sprintf "header %d at height %d: parent %d is not the longest-chain header below" i h p)) ls);
     let cum_of = Hashtbl.create 64 in
     Stdlib.List.iter (fun (i, _, _, cum, _) -> Hashtbl.replace cum_of i (zt_of_z (z_of_hex cum))) o.rows;
     let tip_idx = if is_x then 5 else 3 in
@@ -71,6 +82,15 @@ let spec input obs_s =
     let known = Hashtbl.create 64 in
     Stdlib.List.iter (fun i -> Hashtbl.replace known i ()) sc.init;
     let filtered_inv = ref None in
+    (* an inv of a connected peer that is not the sync peer, answered with no request although the chain was CURRENT by the
+       statement's own definition (tip at or above the last checkpoint's height, tip timestamp within 24 h of the rig's clock) *)
+    let ignored_current_inv = ref [] in
+    let th = tree_height sc u in
+    let last_cp_h = Stdlib.List.fold_left (fun a (h, _) -> max a h) 0 sc.cps in
+    let ts_of i = if i = int_of_n sc.hist.gid then zt_of_z sc.hist.gpl.Store.p_ts
+      else (match Hashtbl.find_opt u i with Some (sr : Store.src) -> zt_of_z sr.Store.s_pl.Store.p_ts | None -> Z.zero) in
+    let decl_current tipid = (match th tipid with Some h -> h >= last_cp_h | None -> false)
+                             && Z.geq (ts_of tipid) (Z.sub (zt_of_z rig_now) (Z.of_int 86400)) in
     Stdlib.List.iter (fun step -> Stdlib.List.iter (fun (e : obs_event) ->
         if Stdlib.List.mem "P" e.effs then fail "panic" e.label;
         if Stdlib.List.exists (fun eff -> String.length eff >= 2 && eff.[0] = 'X') e.effs then svc_dropped := true;
@@ -88,6 +108,8 @@ let spec input obs_s =
           if fresh_stored && (not dropped) && t = !prev_tip then caveat := true;
           Stdlib.List.iter (fun i -> Hashtbl.replace known i ()) e.batch
         end;
+        if e.kind = 'I' && (not is_x) && sync_of !prev_state <> e.peer && g_effs_empty e.effs && decl_current !prev_tip then
+          (match Stdlib.List.rev e.batch with last :: _ -> ignored_current_inv := (e.peer, last) :: !ignored_current_inv | [] -> ());
         if e.kind = 'I' && (not is_x) && sync_of !prev_state = e.peer && g_effs_empty e.effs then
           (match Stdlib.List.rev e.batch with last :: _ -> filtered_inv := Some last | [] -> ());
         prev_tip := t; prev_state := e.state) step) o.steps;
@@ -104,6 +126,8 @@ let spec input obs_s =
         let detail = Printf.sprintf "tip=%d best-offer-work=%s" o.tip (Z.format "%x" best) in
         if (not is_x) && sc.dis && !svc_dropped then fail "checkpoints-disabled-peer-disconnected" detail
         else if (match !filtered_inv with Some i -> not (stored i) | None -> false) then fail "sync-peer-announcement-ignored" detail
+        else if Stdlib.List.exists (fun (q, i) -> not (stored i) && Stdlib.List.mem_assoc q reachable) !ignored_current_inv
+        then fail "current-announcement-ignored" detail   (* announced by a connected conformant peer while current, never requested, never stored *)
         else if sync_lags && not (Stdlib.List.exists (fun (q, n) ->
             Hashtbl.mem asked q && Z.equal (zt_of_z (SyncSpec.chain_cum gw (Stdlib.List.map (src_of u) n.chain))) best) reachable)
         then fail "lagging-sync-peer-kept" detail      (* the known finding: a better peer is NEVER asked *)
